@@ -55,6 +55,12 @@ def reject_class(e: Rejected):
     return e.exc_type
 
 
+def blocking(design):
+    """static findings that make a simulation meaningless.  An incomplete sensitivity list (S-sens) is legal VHDL whose
+    effect is exactly a behavioural difference, so those designs are simulated (the simulator honours the list as written)"""
+    return [e for e in design.errors if e.rule != "S-sens"]
+
+
 def apply_step(sim, spec, row, reset=None, rx=None):
     kw = dict(row)
     if reset is not None:
@@ -311,11 +317,13 @@ def check_design(case, prop, explore_cap=0, nontrivial_rule=None):
         out.status = "blocked"
         out.labels.append("blocked:" + d.unsupported[:40])
         return out
-    if d.errors:
+    if blocking(d):
         out.status = "blocked_by_static"
         for r in d.error_rules():
             out.labels.append("static:" + r)
         return out
+    for r in d.error_rules():
+        out.labels.append("static_nonblocking:" + r)
     try:
         status, info = run_trace(cd, stim, case.get("resets"))
         if status == "ok" and explore_cap:
@@ -349,7 +357,7 @@ def check_design(case, prop, explore_cap=0, nontrivial_rule=None):
             c2 = Compiled(sp)
         except Rejected:
             return False
-        if c2.design.unsupported or c2.design.errors:
+        if c2.design.unsupported or blocking(c2.design):
             return False
         st_, _ = run_trace(c2, stim, case.get("resets"))
         if st_ not in ("mismatch", "sim_error") and explore_cap and "path" in info:
